@@ -1444,12 +1444,13 @@ theorem history_undo_of_replay (S : Schema) (d0 : Node) (steps : List Step) (doc
   have hrc := replayChain_zip S steps docs fin hlen hk
   have := unwind_of_invariant S (fun _ => True)
     (fun s d d' => S.apply s d = .ok d' → StepUndoes S s d d')
-    (fun s d d' _ ha hg => ⟨hg ha, trivial⟩) (steps.zip docs) fin trivial hrc (fun k hk' ha => by
+    (fun s d d' _ ha hg => ⟨hg ha, trivial⟩) (steps.zip docs) fin trivial hrc
+    (histAll_of_get _ _ _ (fun k hk' ha => by
       have hks : k < steps.length := by simp [List.length_zip] at hk'; omega
       have hkd : k < docs.length := by omega
       rw [histNext_zip_drop steps docs fin (k + 1) hlen] at ha ⊢
       simp only [List.getElem_zip] at ha ⊢
-      exact hall k hks docs[k] (List.getElem?_eq_getElem hkd) ha)
+      exact hall k hks docs[k] (List.getElem?_eq_getElem hkd) ha))
   rw [this]
   have := histNext_zip_drop steps docs fin 0 hlen
   simp only [List.drop_zero] at this
